@@ -498,6 +498,11 @@ def product_sign_tests(repo, run, rule_id="C14.7", funcs=("brentsroot", "brentsr
                     zero = False
                 if zero and isinstance(prod, ast.Name) and prod.id in env:
                     prod = env[prod.id]         # a product computed once into a local and tested several times
+                elif zero and isinstance(prod, ast.Name):
+                    # ... also when its operands are updated later (the local then is a snapshot, which is all this rule needs: WHAT was multiplied)
+                    ds = [st for st in walk_no_nested(fn) if isinstance(st, ast.Assign) and len(st.targets) == 1 and isinstance(st.targets[0], ast.Name) and st.targets[0].id == prod.id]
+                    if len(ds) == 1:
+                        prod = ds[0].value
                 if not zero or not (isinstance(prod, ast.BinOp) and isinstance(prod.op, ast.Mult)):
                     continue
                 kl, kr = ke.kind(prod.left), ke.kind(prod.right)
